@@ -245,7 +245,7 @@ func runC09(c *Ctx) {
 				iv := core.ResultVar(info, gt.Top, gc, 0)
 				ev := core.ResultVar(info, gt.Top, gc, 1)
 				okErr, okSize := false, false
-				for _, a := range g.AtomsAt(h.Loc) {
+				for _, a := range factsAt(info, f.Body, g, h.Loc) {
 					if x, eq, isNil := core.IsNilCheck(info, a.Expr); isNil && ev != nil && core.UsesObj(info, x, ev) && eq == a.Val {
 						okErr = true
 					}
